@@ -40,6 +40,49 @@ class Family:
     variables: str = ""  # which kinds of symbolic variable: data / lazy / selector
 
 
+DIAGNOSTICS_EVERY = 7
+
+
+def _with_diagnostics(harness: Callable[[Any], Any]) -> Callable[[Any], Any]:
+    """The same harness with the library's diagnostic switches on (config.TRACE_LOGGING,
+    config.CODEGEN_DEBUG, legacy TRACE_LOGGING): configuration is an input like any other and
+    no property may depend on it.  models.zoo.reset_all() / legacy_zoo.lreset() apply the
+    forced values after their reset."""
+
+    def h(e: Any) -> Any:
+        from models import zoo
+
+        import contextlib
+        import io
+
+        zoo.FORCED_CONFIG = {"TRACE_LOGGING": True, "CODEGEN_DEBUG": True}
+        try:
+            zoo.apply_forced_config()
+            with contextlib.redirect_stdout(io.StringIO()):  # CODEGEN_DEBUG prints the generated code
+                return harness(e)
+        finally:
+            zoo.FORCED_CONFIG = {}
+            zoo.apply_forced_config()
+
+    return h
+
+
+def build_spec(mod: Any, tier: str, seed: int) -> "Spec":
+    """mod.spec() plus, for every DIAGNOSTICS_EVERY-th family, a copy that runs with the
+    diagnostic switches on."""
+    import logging
+
+    spec: Spec = mod.spec(tier, seed)
+    extra = [
+        Family(f.name + "+diagnostics-on", _with_diagnostics(f.harness), f.max_paths, f.time_budget, f.per_path_timeout, f.variables + "; config.TRACE_LOGGING / CODEGEN_DEBUG forced on")
+        for f in spec.families[:: DIAGNOSTICS_EVERY]
+    ]
+    spec.families = list(spec.families) + extra
+    logging.getLogger("pyoak").setLevel(logging.CRITICAL)  # the switches build their messages; nothing is printed
+    logging.getLogger().setLevel(logging.CRITICAL)
+    return spec
+
+
 @dataclass
 class Obligation:
     """Result of one solver obligation of engines X (CrossHair) or Z (SMT-LIB)."""
@@ -220,7 +263,7 @@ def replay_file(mod: Any, cid: str, path: str) -> int:
         _apply_plant(mod, plant)
     engine = payload.get("engine", "P")
     if engine == "P":
-        spec: Spec = mod.spec(payload.get("tier", "quick"), 0)
+        spec: Spec = build_spec(mod, payload.get("tier", "quick"), 0)
         fam = next((f for f in spec.families if f.name == payload["family"]), None)
         if fam is None:
             print(f"NOT-REPRODUCED property={cid} (family {payload['family']} no longer exists)")
@@ -283,7 +326,7 @@ def run_check(
     t0 = time.time()
     if plant:
         _apply_plant(mod, plant)
-    spec: Spec = mod.spec(tier, seed)
+    spec: Spec = build_spec(mod, tier, seed)
     families = spec.families
     if only:
         families = [f for f in families if only in f.name]
